@@ -1037,6 +1037,8 @@ def _style_step(doc, op, step, before, live, res, bad):
     if kind == "displayed":
         flag = op[1]
         res.checked += 1
+        table0 = [ch for ch in _raw(doc.body) if ch.tag == _lx("table:table")][0]
+        tlabel = "table_displayed" if _attr(table0, "table:style-name") else "table_displayed_unstyled"
         try:
             doc.set_table_displayed(0, flag)
         except Exception as ex:  # noqa
@@ -1049,7 +1051,7 @@ def _style_step(doc, op, step, before, live, res, bad):
                 if k == ("style:style", "table", sname)]
         shown = [_attr(ch, "table:display") for n in hits for ch in n if ch.tag == _lx("style:table-properties")]
         if len(hits) != 1 or shown != ["true" if flag else "false"]:
-            bad(step, "table_displayed", f"table style {sname!r}: {len(hits)} automatic table style(s), "
+            bad(step, tlabel, f"table style {sname!r}: {len(hits)} automatic table style(s), "
                                          f"table:display {shown}")
         was = [(w, k, c) for w, lst in before.items() for k, c, _n in lst]
         now = [(w, k, c) for w, lst in after.items() for k, c, _n in lst]
@@ -1059,7 +1061,11 @@ def _style_step(doc, op, step, before, live, res, bad):
     if kind == "merge":
         other = _open_doc(op[1])
         from odfdo import Style
-        other.insert_style(Style("paragraph", name="A", display_name="from-other"))
+        try:
+            other.insert_style(Style("paragraph", name="A", display_name="from-other"))
+        except Exception as ex:  # noqa
+            bad(step, "no_raise_other", f"set-up insert_style on the other document raised {ex!r}")
+            return True, None
         res.checked += 1
         fails = _merge_check(doc, other, before)
         for lab, what in fails:
@@ -1125,7 +1131,7 @@ contract(
     ensures=[Clause(lab, {"C13"}, lambda a, r, p: True) for lab in
              ["no_raise_common", "no_raise_automatic", "no_raise_default", "no_raise_other", "container", "auto_name",
               "auto_name_common", "frame", "reload", "page_break", "delete_all", "table_displayed",
-              "merge_union_theirs", "merge_union_ours"]
+              "table_displayed_unstyled", "merge_union_theirs", "merge_union_ours"]
              + [_fl("lookup", f) for f in _FAM_LABELS] + [_fl("unique", f) for f in _FAM_LABELS]],
     gen=_gen_style_seq, call_native=_call_style_seq,
     bounded=dict(scope="documents: the 4 templates (text, spreadsheet, presentation, drawing), the text "
@@ -1156,10 +1162,14 @@ def _call_merge(con, fn, argvals, labels):
     res.checked = 4
     dst, src = _open_doc(argvals["dst"]), _open_doc(argvals["src"])
     if argvals["extra"]:        # both sides define paragraph 'A' (different content) and an automatic style
-        dst.insert_style(Style("paragraph", name="A", display_name="mine"))
-        src.insert_style(Style("paragraph", name="A", display_name="theirs"))
-        src.insert_style(Style("text", name="T1", display_name="theirs"), automatic=True)
-        dst.insert_style(Style("text", name="T0", display_name="mine"), automatic=True)
+        try:
+            dst.insert_style(Style("paragraph", name="A", display_name="mine"))
+            src.insert_style(Style("paragraph", name="A", display_name="theirs"))
+            src.insert_style(Style("text", name="T1", display_name="theirs"), automatic=True)
+            dst.insert_style(Style("text", name="T0", display_name="mine"), automatic=True)
+        except Exception as ex:  # noqa
+            res.failures.append(("ensures:no_raise_other", f"set-up insert_style raised {ex!r}"))
+            return res
     before = _snapshot(dst)
     dups_before = _dups(before)
     for lab, what in _merge_check(dst, src, before):
@@ -1606,7 +1616,7 @@ FINDINGS += [
                  "doc.insert_style(Style('paragraph', name='odfdo_auto_1'))\n"
                  "n = doc.insert_style(Style('paragraph'), automatic=True)\n"
                  "REPRODUCED = n == 'odfdo_auto_1'\nDETAIL = n\n"),
-    dict(property="C13", target=_T_SEQ, clause="ensures:table_displayed",
+    dict(property="C13", target=_T_SEQ, clause="ensures:table_displayed_unstyled",
          what_fails="set_table_displayed on a table without a style: get_table_style returns the family default "
                     "(get_style('table', None)), which is cloned, named 'ta_0' and inserted as a style:default-style "
                     "element with a style:name inside content.xml office:automatic-styles; the table then refers to "
